@@ -150,3 +150,113 @@ class ImplWorld(ImplExt):
 
     def cmd_trace(self, ts):
         return lst(self.trace)
+
+
+# ----------------------------------------------------------------------------------- rules and solver (C04)
+import random as _random  # noqa: E402
+import time as _time  # noqa: E402
+from job_shop_lib.dispatching import rules as _rules  # noqa: E402
+
+SCORE_FNS = {
+    "spt": _rules.shortest_processing_time_score,
+    "fcfs": _rules.first_come_first_served_score,
+    "mwkr": None,  # a fresh MostWorkRemainingScorer per use
+    "mor": _rules.most_operations_remaining_score,
+}
+RULE_NAMES = {"spt": "shortest_processing_time", "fcfs": "first_come_first_served", "mwkr": "most_work_remaining",
+              "mor": "most_operations_remaining", "random": "random"}
+
+
+def score_fn(name):
+    return _rules.MostWorkRemainingScorer() if name == "mwkr" else SCORE_FNS[name]
+
+
+def make_rule(token):
+    if token in RULE_NAMES:
+        return _rules.dispatching_rule_factory(RULE_NAMES[token])
+    if token == "omwkr":
+        return _rules.observer_based_most_work_remaining_rule
+    if token.startswith("sb:"):
+        return _rules.score_based_rule(score_fn(token[3:]))
+    if token.startswith("tb:"):
+        return _rules.score_based_rule_with_tie_breaker([score_fn(t) for t in token[3:].split(",") if t])
+    raise ValueError(token)
+
+
+class ScriptedRandom:
+    """Replaces random.choice by a scripted stream shared with the model: choice(seq) = seq[draw % len(seq)]."""
+
+    def __init__(self, draws):
+        self.draws = list(draws)
+
+    def __enter__(self):
+        self._choice = _random.choice
+
+        def choice(seq):
+            d = self.draws.pop(0) if self.draws else 0
+            return seq[d % len(seq)]
+        _random.choice = choice
+        return self
+
+    def __exit__(self, *a):
+        _random.choice = self._choice
+
+
+class ImplRules(ImplWorld):
+    def cmd_rule(self, ts):
+        draws = [int(t) for t in ts[1:]]
+        try:
+            with ScriptedRandom(draws):
+                op = make_rule(ts[0])(self.dispatcher)
+        except Exception:  # pylint: disable=broad-except
+            return "raise"
+        return str(op.operation_id)
+
+    def cmd_scores(self, ts):
+        vals = score_fn(ts[0])(self.dispatcher)
+        return lst(int(v) for v in vals)
+
+    def cmd_solve(self, ts):
+        rule_tok, chooser = ts[0], ts[1]
+        draws = [int(t) for t in ts[2:]]
+        rule = make_rule(rule_tok)
+        log = []
+        self.solve_log = []   # for the oracle: (available ids, selected id) per step
+
+        def logged_rule(dispatcher):
+            op = rule(dispatcher)
+            self.solve_log.append(([o.operation_id for o in dispatcher.available_operations()], op, dispatcher))
+            return op
+
+        base_chooser = _rules.machine_chooser_factory(chooser)
+
+        def logged_chooser(dispatcher, op):
+            m = base_chooser(dispatcher, op)
+            log.append(f"{op.operation_id}:{m}")
+            return m
+        solver = _rules.DispatchingRuleSolver(dispatching_rule=logged_rule, machine_chooser=logged_chooser,
+                                              ready_operations_filter=self._make_filter())
+        try:
+            with ScriptedRandom(draws):
+                schedule = solver.solve(self.instance)
+        except Exception:  # pylint: disable=broad-except
+            return "raise"
+        self.last_schedule = schedule
+        return f"ok {' '.join(log)} ; {schedule.makespan()} {fmt_bool_(schedule.is_complete())}"
+
+    def cmd_elapsed(self, ts):
+        t0, t1 = int(ts[0]), int(ts[1])
+        readings = [t0, t1]
+        orig = _time.perf_counter
+        _time.perf_counter = lambda: readings.pop(0) if readings else t1
+        try:
+            solver = _rules.DispatchingRuleSolver(ready_operations_filter=self._make_filter())
+            schedule = solver(self.instance)
+        finally:
+            _time.perf_counter = orig
+        self.last_schedule = schedule
+        return f"{schedule.metadata['elapsed_time']} {schedule.metadata['solved_by']}"
+
+
+def fmt_bool_(b):
+    return "true" if b else "false"
